@@ -67,7 +67,8 @@ func checkParityAdjust(k7 []byte, tag string) {
 	}
 	var got []byte
 	var err error
-	p, v, st := mon.Guard(func() { got, err = ntlmv1.ParityAdjust(append([]byte{}, k7...)) })
+	in := append([]byte{}, k7...) // the caller's buffer
+	p, v, st := mon.Guard(func() { got, err = ntlmv1.ParityAdjust(in) })
 	r.Eval(1)
 	cs := map[string]any{"key7": hx(k7), "want": hx(want), "got": hx(got)}
 	switch {
@@ -79,6 +80,9 @@ func checkParityAdjust(k7 []byte, tag string) {
 		r.Violation("ntlmv1.ParityAdjust:length", fmt.Sprintf("ParityAdjust(%x) has %d bytes", k7, len(got)), cs)
 	case !bytes.Equal(got, want):
 		r.Violation("ntlmv1.ParityAdjust:value", fmt.Sprintf("ParityAdjust(%x)=%x want %x", k7, got, want), cs)
+	default:
+		parityInput(in, k7, got, want, cs)
+		hold("ntlmv1.ParityAdjust", got, cs)
 	}
 	r.Nontrivial(tag)
 }
@@ -268,7 +272,12 @@ func ntlmv1Case(password string, havePw bool, nt [16]byte, sc []byte, layout int
 			r.Violation(key+":error", fmt.Sprintf("error %v", e), cs)
 		case !bytes.Equal(got, wantNT):
 			r.Violation(key+":response"+lay, fmt.Sprintf("%s=%x, DESL(NT hash, challenge)=%x (nt=%x sc=%x, call order %v)", c.name, got, wantNT, nt, sc, order), cs)
+		default:
+			hold("ntlmv1."+c.name, got, cs)
 		}
+	}
+	if !havePw {
+		v1Inputs(ctor, h, nt, sc, layout, buf, cs)
 	}
 	if havePw && isASCII7(password) {
 		wantLM := expectLMv1(password, sc)
@@ -284,6 +293,8 @@ func ntlmv1Case(password string, havePw bool, nt [16]byte, sc []byte, layout int
 			r.Violation(key+":error", fmt.Sprintf("error %v", e), cs)
 		case !bytes.Equal(got, wantLM):
 			r.Violation(key+":response", fmt.Sprintf("LMResponse=%x, DESL(LM hash, challenge)=%x (pw=%q sc=%x)", got, wantLM, password, sc), cs)
+		default:
+			hold("ntlmv1.LMResponse", got, cs)
 		}
 	}
 	r.Nontrivial(tag)
@@ -412,6 +423,7 @@ func ntlmv2Case(user, domain, pw string, sc, cc [8]byte, us, ds string) {
 		r.Violation("ntlmv2.Hash:error", fmt.Sprint(err), cs)
 	default:
 		cs["response"] = hx(resp)
+		hold("ntlmv2.Hash", resp, cs)
 		checkV2Response("ntlmv2.Hash", resp, nt, user, domain, sc, cc, cs)
 	}
 	// HashHex
@@ -562,6 +574,7 @@ func authCase(flags uint32, ti []byte, user, pw, domain, ws string, sc [8]byte, 
 		return
 	}
 	cs["message"] = hx(msg)
+	hold(e, msg, cs)
 	m, ps := readMessage(msg, 3)
 	for _, q := range ps {
 		// structure is C08's business; here only what stops a server from finding the responses
@@ -774,7 +787,7 @@ func concurrentCallers() {
 
 func main() {
 	r = mon.Start("C02", "exploration")
-	r.Rule("ParityBit on all 256 byte values and ParityAdjust on every 7-bit group value at each of the 8 group positions over three backgrounds are enumerated completely (exhaustive sub-domains); the rest is sampled: NTLMv1 responses from passwords and raw NT hashes through Hash/String/NTResponse/LMResponse in several call orders and memory layouts, NTLMv2 through NewNTLMv2/Hash/HashHex/ToHashcatString, AUTHENTICATE messages of ntlm.CreateAuthenticateMessage with/without EXTENDED_SESSIONSECURITY, Unicode/OEM, VERSION, target info. Non-trivial: a distinct (entry point, case class of user, case class of domain, script of user, script of domain) with a non-empty domain containing a cased letter; a distinct NTLMv1 (credential kind, length/hash prefix, challenge, layout) tuple; a distinct parity group case.")
+	r.Rule("ParityBit on all 256 byte values and ParityAdjust on every 7-bit group value at each of the 8 group positions over three backgrounds are enumerated completely (exhaustive sub-domains); the rest is sampled: NTLMv1 responses from passwords and raw NT hashes through Hash/String/NTResponse/LMResponse in several call orders and memory layouts, NTLMv2 through NewNTLMv2/Hash/HashHex/ToHashcatString, AUTHENTICATE messages of ntlm.CreateAuthenticateMessage with/without EXTENDED_SESSIONSECURITY, Unicode/OEM, VERSION, target info. State carried between calls: every returned response / key / message is held in a ring of 64 per entry point beside a private copy and re-compared after each later call (also from the 8 concurrent callers) and at the end; ParityAdjust, the NTLMv1 calls and CreateAuthenticateMessage must leave the caller's key, hash, challenge and target-info bytes (and the bytes behind those slices) unchanged; ServerChallenge/NTHash (NTLMv1) and all input fields (NTLMv2) are set directly on a used object and the next Hash/NTResponse/String/HashHex/ToHashcatString must answer the current fields; one ChallengeMessage serves two AUTHENTICATE messages with different credentials. Non-trivial: a distinct (entry point, case class of user, case class of domain, script of user, script of domain) with a non-empty domain containing a cased letter; a distinct NTLMv1 (credential kind, length/hash prefix, challenge, layout) tuple; a distinct parity group case.")
 	r.SetExhaustive(true)
 	r.Assume(
 		"crypto/des, crypto/md5, crypto/hmac of the Go standard library are correct; MD4 is the harness's RFC 1320 transcription (checked against x/crypto in C01)",
@@ -791,6 +804,8 @@ func main() {
 	ntlmv1All()
 	ntlmv2All()
 	authAll()
+	carryOver()
 	concurrentCallers()
+	heldFinal()
 	r.Finish()
 }
